@@ -141,6 +141,13 @@ def install(it, runner):
     it.ext_models["typing.ParamSpec"] = lambda it_, a, k, n: Ref(z3.Int(fresh_name("paramspec")))
     it.attr_models["with_traceback"] = lambda it_, o, attr, node: EnvFn("with_traceback", attrs={"o": o})
     it.env_models["with_traceback"] = lambda it_, fn, a, k, n: fn.attrs["o"]
+    # asyncio.current_task(): the task driving the run; how many cancel() requests are pending on it is the environment's choice
+    def _cancelling(it_, fn, a, k, n):
+        c = z3.Int(fresh_name("cancelling"))
+        it_.path.assume(c >= 0)
+        return ops.wrap_int(c)
+    it.ext_models["asyncio.current_task"] = lambda it_, a, k, n: Obj(None, {"cancelling": EnvFn("task.cancelling"), "uncancel": EnvFn("task.cancelling")})
+    it.env_models["task.cancelling"] = _cancelling
     from .stateview import fresh_field
     for fname, kind in sv.FIELDS.items():
         it.field_sorts[("_RetryState", fname)] = (lambda kind_: (lambda it_, f: fresh_field(it_, f, kind_, "L")))(kind)
